@@ -26,6 +26,8 @@ type ConcTx struct {
 	W      bool     `json:"w,omitempty"`
 	Keys   []string `json:"keys,omitempty"`
 	Manual bool     `json:"manual,omitempty"`
+	// Re: a reader also runs PrefixSearchScan("d", "k", Re) - concurrent readers use different expressions
+	Re string `json:"re,omitempty"`
 	// Fail makes a write transaction end without committing: "fnerr" (the function returns an error after its
 	// writes) or "big" (it also puts an entry larger than a segment, so Commit itself fails).
 	Fail string `json:"fail,omitempty"`
@@ -100,6 +102,9 @@ func genConcProg(maxG int, modes []int, merge, backup bool) *rapid.Generator[Cas
 						tx.Fail = "fnerr"
 					}
 				}
+				if !tx.W {
+					tx.Re = rapid.SampledFrom([]string{"", "^[12]$", "[34]", "1|4", "^.$"}).Draw(t, "re")
+				}
 				nk := rapid.IntRange(1, 3).Draw(t, "nk")
 				perm := rapid.Permutation(concKeys).Draw(t, "kperm")
 				tx.Keys = perm[:nk]
@@ -147,7 +152,9 @@ type concRec struct {
 	Fail     string // the transaction was meant to fail (it must not commit)
 	ZCur     int    // reader in KeyVal mode: score of the sorted-set member "cur" (re-scored by every writer), 0 absent, -1 not read
 	ZCur2    int
-	LateFor  string // late writer: invoked after a copied file was seen in this backup destination
+	Re       string         // reader: regular expression of its PrefixSearchScan ("" = not run)
+	Scan3    map[string]int // reader: PrefixSearchScan("d","k",Re)
+	LateFor  string         // late writer: invoked after a copied file was seen in this backup destination
 }
 
 func atoi(b []byte) int {
@@ -309,6 +316,11 @@ func runConc(c Case, dirs []string, dbs []*nutsdb.DB, backupRoot string) concRes
 			r.Ver, _ = readVer(tx)
 			r.Vals = readKeys(tx, t.Keys)
 			r.Scan, r.Scan2 = readScans(tx)
+			if t.Re != "" {
+				r.Re = t.Re
+				es, _, err := tx.PrefixSearchScan("d", []byte("k"), t.Re, 0, nutsdb.ScanNoLimit)
+				r.Scan3 = entriesToMap(es, err)
+			}
 			if structs {
 				r.List = readList(tx)
 				r.Set = readSet(tx)
@@ -608,6 +620,18 @@ func checkConc(recs []concRec, db int, structs, noList bool, final map[string]in
 			for _, k := range concKeys {
 				if r.Scan[k] != want[k] || r.Scan2[k] != want[k] {
 					return fmt.Errorf("reader g%d/%d (%s) saw version %d but its scans show %s with stamp %d (RangeScan) / %d (PrefixScan), snapshot of version %d has %d", r.G, r.I, r.Kind, v, k, r.Scan[k], r.Scan2[k], v, want[k])
+				}
+			}
+		}
+		if r.Re != "" {
+			re := regexp.MustCompile(r.Re)
+			for _, k := range concKeys {
+				exp := 0
+				if re.MatchString(k[1:]) {
+					exp = want[k]
+				}
+				if r.Scan3[k] != exp {
+					return fmt.Errorf("reader g%d/%d saw version %d but its PrefixSearchScan(%q) shows %s with stamp %d, expected %d (0 = not in the result)", r.G, r.I, v, r.Re, k, r.Scan3[k], exp)
 				}
 			}
 		}
